@@ -2,6 +2,7 @@
  * -Dmalloc=vh_malloc -Drealloc=vh_realloc -Dfree=vh_free; the wrappers below fail the k-th request whenever bit k of the
  * symbolic fail mask is set (so the solver chooses any subset of failing allocations) and keep a count of live blocks.
  * Scenarios (SCEN): 1 snprintf_s "%ls"   2 snprintf_s "x%lsy%d"   3 snprintf_s "%Lfz" / "%az" (sub-format copy)
+ *                   7 wcsnorm_reorder_s heap mark array   8 wcsnorm_s with heap scratch string + heap mark array
  *                   4 wcsicmp_s          5 wcsnatcmp_s             6 swprintf_s/vswprintf_s/snwprintf_s/vsnwprintf_s probe (dmax >= 512)
  * Assertions: no NULL dereference (CBMC pointer checks), failure indication + dest cleared when an allocation failed,
  * nothing left allocated on any path. */
@@ -102,6 +103,23 @@ VH_MAIN_BEGIN
     /* marks of one class keep their order: the reordered string equals the source (C17) */
     if (!failure)
         for (unsigned i = 0; i < NMARKS + 2; i++) CHECK("C17", dest[i] == src[i], "canonical reordering changed a sequence of marks of one class (heap array)");
+#elif SCEN == 8
+    /* wcsnorm_s end to end on a string long enough for the heap scratch string (>= 126 characters) that also holds more than
+       10 marks in a row (heap mark array in the reordering stage): three allocation sites live at once; concrete string,
+       symbolic allocation outcomes */
+    wchar_t *src = (wchar_t *)vh_alloc((NBASE + NMARKS + 1) * sizeof(wchar_t)), *dest = (wchar_t *)vh_alloc(NDMAX * sizeof(wchar_t));
+    for (unsigned i = 0; i < NBASE; i++) src[i] = L'a';
+    for (unsigned i = 0; i < NMARKS; i++) src[NBASE + i] = 0x301;
+    src[NBASE + NMARKS] = 0;
+    for (unsigned i = 0; i < NDMAX; i++) dest[i] = 0x55;
+    rsize_t rlen = 0;
+    rc = _wcsnorm_s_chk(dest, NDMAX, src, NMODE, &rlen, BOS_UNKNOWN);
+    failure = rc != EOK;
+    cleared = dest[0] == 0;
+    if (!failure) {
+        CHECK("C17", rlen == NBASE + NMARKS, "wcsnorm_s: reported length differs");
+        for (unsigned i = 0; i < NBASE + NMARKS + 1; i++) CHECK("C17", dest[i] == src[i], "wcsnorm_s changed an already normalised string (heap scratch)");
+    }
 #else
     wchar_t *dest = (wchar_t *)vh_alloc(520 * sizeof(wchar_t));
     dest[0] = 0x55; dest[1] = 0x55;
@@ -111,7 +129,7 @@ VH_MAIN_BEGIN
 #endif
     if (vh_failed_any) {
         CHECK("C20", failure, "an internal allocation failed but the call does not report a failure");
-#if SCEN <= 3 || SCEN == 6 || SCEN == 7
+#if SCEN <= 3 || SCEN == 6 || SCEN == 7 || SCEN == 8
         CHECK("C20", cleared, "allocation failure: dest not cleared");
 #endif
     }
